@@ -168,6 +168,21 @@ CHECKS["C06"] = (
     "5/C06",
 )
 
+CHECKS["C16"] = (
+    "model_checking",
+    "exhaustive enumeration of token strings and of all single edits of valid rules/FLL documents on the real loaders with a reference recogniser",
+    "All rule-frame strings of <= 6 symbols, all antecedent token strings of length <= 5 (thorough 6) over 12 tokens, "
+    "all consequent token strings over 10 tokens (with weight tails), every single edit at every position of the valid "
+    "rules printed from all trees with <= 3 leaves, every line/token mutation of two FLL documents, and nesting/chain "
+    "depths up to 256 are fed to Rule.parse+load / RuleBlock.load_rules / FllImporter. Every failure must be a "
+    "syntax/value/lookup error and leave the rule unloaded; every grammatical text must be accepted; every listed-class "
+    "single edit that the reference recogniser judges invalid must be rejected; every accepted text must re-export, "
+    "re-create and evaluate.",
+    "Rejection is demanded only for listed-class single edits of valid rules; other ungrammatical texts that the "
+    "shunting-yard accepts (stray balanced parentheses, postfix order) are counted as lenient_accepts.",
+    "5/C16",
+)
+
 REASON_NOT_BUILT = "check not built yet in this phase (planned in DESIGN.md section 5); no claim is made"
 
 
